@@ -143,6 +143,9 @@ func c04GenFile(r *Rng, idx int, le string, nfiles int) c04File {
 		emit(nx(), fmt.Sprintf("print(%sGlob, %sFunc(1, 2), %sTab.method(%sTab, 1))", o, o, o, o))
 		emit(nx(), fmt.Sprintf("local %sborrow = %sFunc(%sGlob, %sGlob)", pre, o, o, o))
 		emit(nx(), fmt.Sprintf("print(%sborrow)", pre))
+		// a member added to the other file's table: it is declared in this document
+		emit(nx(), fmt.Sprintf("function %sTab.%sadded(%sq2) return %sq2 end", o, pre, pre, pre))
+		emit(nx(), fmt.Sprintf("print(%sTab.%sadded(1))", o, pre))
 	}
 	// Lua 5.4 attributes on the first and on later names of a declaration list
 	emit(nx(), fmt.Sprintf("local %sca <const>, %scb <const>, %scc, %scd<close> = 1, 2, 3, nil", pre, pre, pre, pre))
